@@ -199,8 +199,8 @@ theorem inv_init (ctlFirst : Bool) (script : List (ℚ × Op)) (hT : 0 < T) (hsc
   cases ctlFirst
   all_goals
     simp [-Array.getD_eq_getD_getElem?, initState, mkTimer, doCall, KState.newLabelled, KState.newEv, KState.setProc,
-      KState.schedule, zero_eq', cStopped, cExpire, cTimeout, cStart, cProc, cFired, a0]
-    refine ⟨⟨⟨?_, ?_, ?_⟩, ?_, ?_, ?_, ?_, ?_, ?_, ?_, ?_, ?_, ?_, ?_, ?_⟩, ⟨?_, ?_, ?_, ?_, ?_, ?_, ?_, ?_⟩⟩
+      KState.schedule, zero_eq', cStopped, cExpire, cTimeout, cStart, cProc, cFired, cStarted, a0]
+    refine ⟨⟨⟨?_, ?_, ?_⟩, ?_, ?_, ?_, ?_, ?_, ?_, ?_, ?_, ?_, ?_, ?_, ?_, ?_⟩, ⟨?_, ?_, ?_, ?_, ?_, ?_, ?_, ?_⟩⟩
     · intro q hq; simp at hq; rcases hq with rfl | rfl <;> simp
     · intro q hq; simp at hq; rcases hq with rfl | rfl <;> simp
     · simp
@@ -223,6 +223,7 @@ theorem inv_init (ctlFirst : Bool) (script : List (ℚ × Op)) (hT : 0 < T) (hsc
     · simp [lookup]
     · simp [lookup]
     · simp [lookup]
+    · simp [lookup, oldStat]
     · exact ⟨rfl, rfl, hT, fun o ho => by cases ho⟩
     · intro o ho; cases ho
     · exact ⟨rfl, rfl, hsc⟩
